@@ -23,6 +23,8 @@ def cases(tier, r):
                   'op': r.choice(['iter', 'set', 'set_multi', 'replace', 'replace_nocopy', 'replace_equal', 'tagiter'])}
   for _ in range(60 if tier == 'quick' else 1000):
     yield 'methods', {'methods_stage': True, 'seed': r.getrandbits(48)}
+  for _ in range(16 if tier == 'quick' else 200):
+    yield 'factory_field', {'factory_field': True, 'seed': r.getrandbits(48)}
 
 
 class _Tok2:
@@ -51,6 +53,47 @@ class _Tok2:
 
 class _SubTok2(_Tok2):
   pass
+
+
+import dataclasses as _dc
+import typing as _typing
+
+
+@_dc.dataclass
+class _Mlp:
+  sizes: _typing.Annotated[_typing.List[int], targets.T1] = _dc.field(default_factory=list)
+  width: _typing.Annotated[int, targets.T1] = 4
+  name: str = 'mlp'
+
+
+def run_factory_field(case):
+  """A tagged dataclass field with a default_factory (no default VALUE), unset or set: iterating
+  the tag selection yields one entry per tagged argument and does not raise; replace sets them."""
+  r = random.Random(case['seed'])
+  kw = {}
+  if r.random() < 0.4:
+    kw['sizes'] = [r.randint(1, 9)]
+  if r.random() < 0.4:
+    kw['width'] = r.randint(5, 9)
+  cfg = fdl.Config(_Mlp, **kw)
+  root = cfg if r.random() < 0.5 else fdl.Config(graphs.node_fn(1, 0), p=[cfg])
+  obs = {'factory_field': True, 'set': sorted(kw), 'problems': []}
+  try:
+    got = list(selectors.select(root, tag=targets.T1))
+    want_width = kw.get('width', 4)
+    if len(got) != 2 or want_width not in got:
+      obs['problems'].append(f'iteration yields {got!r:.80}; two arguments are tagged (width = {want_width})')
+    if 'sizes' in kw and kw['sizes'] not in got:
+      obs['problems'].append(f'iteration yields {got!r:.80}, not the value of sizes')
+  except Exception as e:
+    obs['problems'].append(f'select / iteration raised {type(e).__name__}: {e}'[:160])
+  try:
+    selectors.select(root, tag=targets.T1).replace(7)
+    if (cfg.__arguments__.get('sizes'), cfg.__arguments__.get('width')) != (7, 7):
+      obs['problems'].append(f'after replace(7) the tagged arguments hold {dict(cfg.__arguments__)}')
+  except Exception as e:
+    obs['problems'].append(f'replace raised {type(e).__name__}: {e}'[:160])
+  return obs
 
 
 def run_methods(case):
@@ -162,6 +205,8 @@ def edges(root):
 def execute(case):
   if case.get('methods_stage'):
     return run_methods(case), None
+  if case.get('factory_field'):
+    return run_factory_field(case), None
   root = make_root(case)
   target = pick_target(root, case)
   btype = BTYPES[case['btype']]
@@ -358,6 +403,11 @@ def compare(real, model):
 
 
 def oracle(case, real):
+  if real.get('factory_field'):
+    if real['problems']:
+      return {'what': 'tag selection over a dataclass field with a default_factory: ' + real['problems'][0],
+              'problems': real['problems'], 'explicitly set': real['set']}
+    return None
   if real.get('methods_stage'):
     if real['problems']:
       return {'what': 'selection by a callable that is a method (named again at the call site): ' + real['problems'][0],
@@ -391,6 +441,8 @@ def oracle(case, real):
 
 
 def nontrivial(case, real):
+  if real.get('factory_field'):
+    return ('factory_field', tuple(real['set']), case['seed'] % 2)
   if real.get('methods_stage'):
     return ('methods', case['seed']) if real.get('n_match') else None
   if real.get('n_match', 0) == 0 and real['op'] != 'tagiter':
